@@ -423,64 +423,80 @@ func c02BuilderScopes(c *Ctx) map[string]map[string]int {
 	}
 	si := typeSwitchOn(fd, fd.Type.Params.List[0].Names[0].Name)
 	out := map[string]map[string]int{}
-	for kind, cc := range si.Cases {
-		depth := 0
+	nc := c.builderNorm()
+	b, xp := recvName(fd), firstParam(fd)
+	// scope depth (pushArgsSet nesting) at which each child is visited, read off the normalised paths of the case
+	scopeDepths := func(paths []bpath, root string) (map[string]int, string) {
 		m := map[string]int{}
-		var walk func(list []ast.Stmt)
-		walk = func(list []ast.Stmt) {
-			for _, st := range list {
-				switch x := st.(type) {
-				case *ast.ExprStmt:
-					ce, ok := x.X.(*ast.CallExpr)
-					if !ok {
-						continue
+		problem := ""
+		for _, p := range paths {
+			depth := 0
+			for _, e := range p {
+				if e.Kind != "call" {
+					continue
+				}
+				switch {
+				case e.Text == b+".pushArgsSet()":
+					depth++
+				case e.Text == b+".popArgsSet()":
+					depth--
+				case strings.HasPrefix(e.Text, b+".writeExprCode("):
+					a := strings.TrimSuffix(strings.TrimPrefix(e.Text, b+".writeExprCode("), ")")
+					name := "elem"
+					if strings.HasPrefix(a, root+".") && !strings.Contains(a[len(root)+1:], "[") {
+						name = a[len(root)+1:]
 					}
-					switch callName(ce) {
-					case "b.pushArgsSet":
-						depth++
-					case "b.popArgsSet":
-						depth--
-					case "b.writeExprCode":
-						a := nospace(ce.Args[0])
-						if i := strings.LastIndex(a, "."); i >= 0 {
-							a = a[i+1:]
-						} else {
-							a = "elem"
-						}
-						m[a] = depth
-					case "b.addArg":
-						m["$label"] = depth
+					if d, seen := m[name]; seen && d != depth {
+						problem = fmt.Sprintf("child %s is visited at depths %d and %d", name, d, depth)
 					}
-				case *ast.RangeStmt:
-					walk(x.Body.List)
-				case *ast.ForStmt:
-					walk(x.Body.List)
-				case *ast.BlockStmt:
-					walk(x.List)
+					m[name] = depth
+				case strings.HasPrefix(e.Text, b+".addArg("):
+					m["$label"] = depth
 				}
 			}
+			if depth != 0 {
+				problem = fmt.Sprintf("pushArgsSet/popArgsSet unbalanced (%+d)", depth)
+			}
 		}
-		walk(cc.Body)
-		if depth != 0 {
-			r.Bad("C02-d", "G.builder.writeExprCode:kind="+kind+":balanced", "", g.Where(cc.Pos()), fmt.Sprintf("pushArgsSet/popArgsSet unbalanced (%+d)", depth))
+		return m, problem
+	}
+	for kind, cc := range si.Cases {
+		m, problem := scopeDepths(nc.normBlock(fd, cc.Body), xp)
+		if problem != "" {
+			r.Bad("C02-d", "G.builder.writeExprCode:kind="+kind+":balanced", "", g.Where(cc.Pos()), problem)
 		}
 		out[kind] = m
 	}
 	// rule level
 	wrc := load.FuncDecl(bp, "builder", "writeRuleCode")
 	if wrc != nil {
-		seq := []string{}
-		for _, ce := range callsIn(wrc) {
-			switch callName(ce) {
-			case "b.pushArgsSet":
-				seq = append(seq, "push")
-			case "b.popArgsSet":
-				seq = append(seq, "pop")
-			case "b.writeExprCode":
-				seq = append(seq, "visit")
+		okScope := false
+		why := "no path"
+		for _, p := range nc.normPaths(wrc) {
+			var seq []string
+			for _, e := range p {
+				if e.Kind != "call" {
+					continue
+				}
+				switch {
+				case e.Text == b+".pushArgsSet()":
+					seq = append(seq, "push")
+				case e.Text == b+".popArgsSet()":
+					seq = append(seq, "pop")
+				case strings.HasPrefix(e.Text, b+".writeExprCode("):
+					seq = append(seq, "visit")
+				}
+			}
+			if len(seq) == 0 {
+				continue // the nil-rule path
+			}
+			okScope = strings.Join(seq, ",") == "push,visit,pop"
+			why = "sequence is " + strings.Join(seq, ",")
+			if !okScope {
+				break
 			}
 		}
-		r.Check(strings.Join(seq, ",") == "push,visit,pop", "C02-d", "G.builder.writeRuleCode:rule-scope", "", g.Where(wrc.Pos()), "each rule's code is generated in its own scope", "sequence is "+strings.Join(seq, ","))
+		r.Check(okScope, "C02-d", "G.builder.writeRuleCode:rule-scope", "", g.Where(wrc.Pos()), "each rule's code is generated in its own scope", why)
 		out["$rule"] = map[string]int{"Expr": 1}
 	}
 	// the scope stack primitives of the builder
